@@ -20,7 +20,7 @@ func (c12) ID() string { return "C12" }
 
 // EvalFeatures names the counters of judged executions.
 func (c12) EvalFeatures() []string {
-	return []string{"paths", "stop-with-words-reported-the-end", "stop-with-words-refused"}
+	return []string{"paths", "stop-with-words-reported-the-end", "stop-with-words-refused", "tail:absorbing-checked"}
 }
 
 func (c12) Cases(tier string) int {
@@ -32,21 +32,25 @@ func (c12) Cases(tier string) int {
 
 func (c12) Thresholds(tier string) map[string]int64 {
 	return map[string]int64{
-		"end-by-stop":                      500,
-		"end-by-node-end":                  500,
-		"stop-with-statements-left":        300,
-		"stop-nested":                      200,
-		"end-right-after-option-group":     200,
-		"end-after-empty-chosen-body":      100,
-		"extra-next-calls":                 20000,
-		"restore-after-end-revives":        300,
-		"end-with-ysgo-statements-left=0":  500,
-		"stop-with-words-reported-the-end": 1000,
+		"end-by-stop":                               500,
+		"end-by-node-end":                           500,
+		"stop-with-statements-left":                 300,
+		"stop-nested":                               200,
+		"end-right-after-option-group":              200,
+		"end-after-empty-chosen-body":               100,
+		"extra-next-calls":                          20000,
+		"restore-after-end-revives":                 300,
+		"end-with-ysgo-statements-left=0":           500,
+		"stop-with-words-reported-the-end":          1000,
+		"tail:absorbing-checked:A":                  500,
+		"tail:absorbing-checked:B":                  300,
+		"tail:absorbing-checked:C":                  300,
+		"tail:end-reported-after-a-pending-command": 300,
 	}
 }
 
 func (c12) Rule() string {
-	return "case = one generated program with a raised share of <<stop>> statements (at nesting depth 0-6, with statements after the stop in the same and in enclosing bodies) and of option groups that end a node (some with empty bodies); every enumerated path is driven to its end, then 10 further Next calls are made with arguments drawn from {0,1,-1,7,maxint,minint}. Oracle: each returns (nil,nil) without panicking and without any host-function, command or variable-store write event (recorded at the host boundary); finally a snapshot taken at the end is restored and the runner must run again exactly as the model does from that node entry. A second sub-workload writes the stop with extra words (<<stop now>>, <<stop {\"why\"}>>) nested 0-4 levels deep with statements after it at every level; nothing is predicted about such a command, but IF the runner reports the end, the end must be absorbing. Non-trivial: the end was reached with statements left in the continuation (stop) or right after an option group. Distinct by hash of scripts+choices."
+	return "case = one generated program with a raised share of <<stop>> statements (at nesting depth 0-6, with statements after the stop in the same and in enclosing bodies) and of option groups that end a node (some with empty bodies); every enumerated path is driven to its end, then 10 further Next calls are made with arguments drawn from {0,1,-1,7,maxint,minint}. Oracle: each returns (nil,nil) without panicking and without any host-function, command or variable-store write event (recorded at the host boundary); finally a snapshot taken at the end is restored and the runner must run again exactly as the model does from that node entry. A second sub-workload writes the stop with extra words (<<stop now>>, <<stop {\"why\"}>>) nested 0-4 levels deep with statements after it at every level; nothing is predicted about such a command, but IF the runner reports the end, the end must be absorbing. A third sub-workload lets the end meet commands: (A) an asynchronous command (7 handler shapes, completion after 1-4 polls or only after the end was reported, with an error or nil) is the very last statement of the dialogue, nested 0-3 levels deep; (B) the game registered a command named stop (pending, failing, converted) and the script runs <<stop>>; (C) plain lines carry trailing <<if>> conditions (true, false, variables) with statements after them. Nothing is predicted about when the end is reported; from the first (nil,nil) on, 14 further calls - during which everything still pending completes with its error - must report the end with no host event, handler invocation or store write. Non-trivial: the end was reached with statements left in the continuation (stop) or right after an option group. Distinct by hash of scripts+choices."
 }
 
 func (c12) Assumptions() []string {
@@ -68,6 +72,10 @@ func (p c12) Run(c *core.Ctx) {
 		cfg.WStop = 3 // more ends by running off the node
 	}
 	p.stopWithWords(c)
+	if c.Failed() {
+		return
+	}
+	p.endWithCommands(c)
 	if c.Failed() {
 		return
 	}
